@@ -178,6 +178,46 @@ func intInverseRule(w *World, r *Report, rule string) {
 		}
 	}
 	r.floor(rule, "integer results of read_atom", n, 1)
+	// an integer token yields an integer or an error, nothing else: whatever is returned with a nil error after
+	// the integer parser was tried on the token (in the branch of that token kind) is the parsed int - a value of
+	// another kind (a float for a literal out of range) prints as a text of another token kind and does not read
+	// back equal
+	np := 0
+	for _, f := range w.withPkgHelpers(ra) {
+		for _, b := range f.Blocks {
+			for _, in := range b.Instrs {
+				c, ok := in.(*ssa.Call)
+				if !ok || c.Call.StaticCallee() == nil || fnPkgPath(c.Call.StaticCallee()) != "strconv" {
+					continue
+				}
+				if nm := c.Call.StaticCallee().Name(); nm != "ParseInt" && nm != "Atoi" {
+					continue
+				}
+				if !tokenTextArg(c.Call.Args[0], 0) {
+					continue
+				}
+				np++
+				for _, rt := range (&evalModel{}).returns(f) {
+					ret := rt[0].(*ssa.Return)
+					if !(ret.Block() == b || b.Dominates(ret.Block())) || len(ret.Results) < 2 {
+						continue
+					}
+					ev, _ := rt[2].(ssa.Value)
+					if ev == nil || !isNilConst(ev) {
+						continue
+					}
+					isInt := false
+					if mi, ok := resolveRet(ret.Results[0]).(*ssa.MakeInterface); ok {
+						if bt, ok := mi.X.Type().Underlying().(*types.Basic); ok && bt.Kind() == types.Int {
+							isInt = true
+						}
+					}
+					r.check(isInt, rule, f, "value read from an integer token", ret.Pos(), "an int", "an integer token is read as a value of another kind on this path: it prints as a text of another token kind, which does not read back equal (a literal without a decimal point must read back as what it was read as)")
+				}
+			}
+		}
+	}
+	r.floor(rule, "integer parses of the token text", np, 1)
 }
 
 func parsedIntVerbatim(v ssa.Value, depth int) (bool, string) {
